@@ -54,6 +54,8 @@ ATTRS = {
     "None_str": "None",
     "True_str": "True",
     "braces": "{x}",
+    "brackets_text": "[kg m-2 s-1]",  # bracketed, but not parseable as Python at all
+    "braces_text": "{time mean}",
     "quote": "it's 5\" wide",
     "float": 2.5,
     "list": [1, 2, 3],
